@@ -941,6 +941,48 @@ func init() {
 		it, _ := msgpack.ImpliedType(b)
 		return opRes{vals: []cty.Value{r}, s: fmt.Sprintf("%x", b) + cty.VerifFingerprintType(it)}
 	}, selAny)
+	// bytes an encoder returned are the caller's: scribbling over them must not change what encoding the same
+	// (or any other) value gives afterwards
+	defOp("EncodedBytesMutate", "alias.out.bytes", func(t *taskState, a [3]cty.Value, p [3]int) opRes {
+		x, _ := a[0].UnmarkDeep()
+		y, _ := a[1].UnmarkDeep()
+		if p[0]%4 == 0 {
+			y = []cty.Value{cty.DynamicVal, cty.NullVal(cty.DynamicPseudoType), cty.UnknownVal(cty.String), cty.True, cty.EmptyObjectVal}[p[1]%5]
+		}
+		enc := func(v cty.Value, how int) []byte {
+			var b []byte
+			switch how % 5 {
+			case 0:
+				b, _ = msgpack.Marshal(v, v.Type())
+			case 1:
+				b, _ = msgpack.Marshal(v, cty.DynamicPseudoType)
+			case 2:
+				b, _ = ctyjson.Marshal(cty.UnknownAsNull(v), cty.DynamicPseudoType)
+			case 3:
+				b, _ = ctyjson.MarshalType(v.Type())
+			default:
+				b, _ = v.Type().MarshalJSON()
+			}
+			return b
+		}
+		var before [5]string
+		for h := range before {
+			before[h] = string(enc(x, h))
+		}
+		res := sres("%x", before[p[2]%5])
+		scribbled := enc(y, p[2])
+		for i := range scribbled {
+			scribbled[i] ^= 0x5a
+		}
+		scribbled = append(scribbled[:0], "overwritten by the caller"...)
+		_ = scribbled
+		for h := range before {
+			if now := string(enc(x, h)); now != before[h] && res.viol == "" {
+				res.viol = fmt.Sprintf("after the bytes of another encoding result were overwritten by their owner, the same value encodes differently\nbefore: %x\nafter:  %x", clip(before[h]), clip(now))
+			}
+		}
+		return res
+	}, selAny, selAny)
 	// ---- gocty
 	defOp("GoctyOut", "", func(t *taskState, a [3]cty.Value, p [3]int) opRes {
 		u, _ := a[0].UnmarkDeep()
